@@ -270,6 +270,7 @@ func cmdCheck(args []string) int {
 		engineErrs = append(engineErrs, lerr.Error())
 	}
 	obls = append(obls, lemmaObls...)
+	obls = append(obls, eng.structuralObligations(*prop)...)
 	canaries := eng.canaries(*prop, results)
 
 	if *dump != "" {
